@@ -622,6 +622,32 @@ func evalLookup(c Case) evid.Verdict {
 			}
 		}
 	}
+	// GetKDCs("") stands for the default realm: exactly the realm of that name, or nothing when no realm is spelt that way
+	{
+		def := cfg.LibDefaults.DefaultRealm
+		var want []kc.Server
+		found := false
+		for _, er := range p.exp.Realms {
+			if er.Name == def {
+				want, found = er.KDC, true
+			}
+		}
+		for k := 0; k < 4; k++ {
+			n, m, _ := cfg.GetKDCs("", k%2 == 1)
+			if !found || len(want) == 0 {
+				if n != 0 || len(m) != 0 {
+					return evid.Fail("lookup:default-realm:GetKDCs", "GetKDCs(\"\") returns %d servers %v; default_realm is %q and no realm of exactly that name has KDCs\n--- file ---\n%s", n, m, def, p.text)
+				}
+				continue
+			}
+			if n != len(want) {
+				return evid.Fail("lookup:default-realm:GetKDCs", "GetKDCs(\"\") returns count %d; the default realm %q configures %d KDCs (%v)\n--- file ---\n%s", n, def, len(want), want, p.text)
+			}
+			if why := permutationOf("kdc", m, want, nil); why != "" {
+				return evid.Fail("lookup:default-realm:GetKDCs", "GetKDCs(\"\") returns %v: %s; the default realm %q configures %v\n--- file ---\n%s", m, why, def, want, p.text)
+			}
+		}
+	}
 	// realm names are case-sensitive (two realms may differ in nothing else): a spelling that is not a configured realm
 	// has no servers, whatever other realm it resembles
 	configured := map[string]bool{}
